@@ -66,6 +66,33 @@ def family_stab(tier, seed, n=None):
                 ops.append({"op": "set", "p": o + ".k", "v": bits(rnd.randrange(16), 4)})
         envs = ENVS if tier == "thorough" else [ENVS[0], ENVS[2], rnd.choice([ENVS[1], ENVS[3]])]     # plain, debug, one more
         out.append({"id": "ST/%s/%d" % ("core" if core else "s%d" % seed, t), "world": world, "ops": ops, "envs": envs})
+    # (a) replay across a FAILED call: snapshot, call, failing call, restore, the same call again - equal results
+    # (b) module-level vsc.randomize(obj, randstate=RandState(seed)) interleaved with state-less use: it draws nothing from
+    #     Python's global generator and the same seed gives the same result again
+    for t in range(4 if tier == "quick" else 24):
+        rnd = random.Random(939 + t + (0 if t < 2 else 100 * seed))
+        world = world_stab(rnd)
+        # a dynamic block with a dist of its own: referenced by some calls only
+        world["classes"]["A"]["blocks"].append({"name": "dd", "dynamic": True, "body": [
+            {"k": "dist", "e": F("mid"), "ws": [{"it": {"k": "v", "e": lit(3)}, "w": lit(1)}, {"it": {"k": "r", "lo": lit(10), "hi": lit(20)}, "w": F("k")}]}]})
+        dyn = [E({"k": "dyn", "o": "", "b": "dd"})]
+        unsat = [E(B("lt", F("b"), F("a")))]
+        x1 = wcall(dyn if t % 2 == 0 else [], "o1")
+        ops = [{"op": "construct", "o": "o1"}, {"op": "construct", "o": "o2"}, {"op": "seed", "os": ["o1"], "s": rnd.randrange(1000)},
+               {"op": "seed", "os": ["o2"], "s": rnd.randrange(1000)},
+               {"op": "call", "call": mcall("o1")}, {"op": "snap", "o": "o1", "name": "s0"},
+               {"op": "call", "call": x1}, {"op": "call", "call": mcall("o1")},
+               {"op": "call", "call": wcall(unsat + (dyn if t % 4 < 2 else []), "o1")},           # fails
+               {"op": "restore", "o": "o1", "name": "s0"},
+               {"op": "call", "call": x1}, {"op": "call", "call": mcall("o1")},                  # must replay
+               {"op": "set", "p": "o1.k", "v": bits(9, 4)},
+               {"op": "restore", "o": "o1", "name": "s0"}, {"op": "call", "call": x1}]            # a different non-random input: own key
+        fs = rnd.randrange(1000)
+        for k_ in range(3):
+            ops.append({"op": "call", "call": {"kind": "free", "roots": ["o2"], "owner": "", "inline": [], "rs_seed": fs + (k_ % 2), "stream": "f%d" % k_}})
+            ops.append({"op": "call", "call": mcall("o1")})
+        envs = ENVS if tier == "thorough" else [ENVS[0], ENVS[2], ENVS[3]]
+        out.append({"id": "ST/failreplay/%d" % t, "world": world, "ops": ops, "envs": envs})
     # default state: the sequence is fixed by Python's global seed (no global-random noise here)
     for t in range(2 if tier == "quick" else 10):
         rnd = random.Random(919 + t)
